@@ -40,9 +40,11 @@ def fam_fastpath(g):
     n = rng.randint(1, 3)
     name = rng.choice(["feat", "src"])
     yield g.git("checkout", "-q", "-b", name)
+    restricted = (["insert", "delete", "replace", "reindent", "append"]
+                  if g.gated("rebase_human_intraline_edit") else None)
     for k in range(n):
         # AI work stays inside `path` so that the other files are free for upstream
-        yield from g.some_edits(n_ai=(1, 2), n_human=(0, 1), path=path)
+        yield from g.some_edits(n_ai=(1, 2), n_human=(0, 1), path=path, human_kinds=restricted)
         yield from g.commit_all()
     yield g.git("checkout", "-q", base)
     others = [f for f in files if f != path]
@@ -157,7 +159,7 @@ class C15(C02):
                     ex.probe("ai_lines_observed")
                 if ma != mb:
                     return {"monitor": "pair.notes", "class": "notes_differ_on_lines_the_commit_adds",
-                            "detail": {"commit": c, "path": path, "shortcut": sorted(ma.items())[:12],
+                            "detail": {"commit": c, "path": path, "is_tip": c == a.w.head(ra), "shortcut": sorted(ma.items())[:12],
                                        "full_replay": sorted(mb.items())[:12]}}
             ka = sorted((pa["meta"].get("prompts") or {}))
             kb = sorted((pb["meta"].get("prompts") or {}))
